@@ -9,10 +9,10 @@ back to the target's AST, and that `*` expands to the table's default columns.
 import random
 from decimal import InvalidOperation
 
-from .. import engine, gen, ir, ledgers, monitors
+from .. import engine, gen, ir, ledgers, model, monitors
 from ..ir import T_INT, T_STR, T_BOOL
 from .c06 import ast_same
-from ..values import show_rows
+from ..values import show, show_rows, same_rows, first_row_diff
 
 ID = 'C07'
 LEVEL = 'exploration'
@@ -39,7 +39,7 @@ def expected_names(q, target_texts):
     return out
 
 
-def check_statement(ctx, conn, q, style_name, style, label, hidden):
+def check_statement(ctx, conn, q, style_name, style, label, hidden, mt=None):
     from beanquery import parser
     texts = []
     try:
@@ -80,6 +80,19 @@ def check_statement(ctx, conn, q, style_name, style, label, hidden):
         if len(r) != len(desc) or not isinstance(r, tuple):
             ctx.violation('c07.row_shape', f'{label}: {text!r}: row {r!r} for {len(desc)} described columns', case)
             break
+    # every cell is the value of the target its column is named after (reference model; the minimal rendering only)
+    if mt is not None and style_name == 'minimal':
+        try:
+            _, _, mrows = model.run_query(q, {'t': mt})
+        except Exception:  # noqa: BLE001
+            ctx.count('excluded.model_raises')
+            mrows = None
+        if mrows is not None:
+            ctx.count('obs.rows_compared_with_model', len(mrows))
+            if not same_rows(rows, mrows):
+                d = first_row_diff(rows, mrows)
+                ctx.violation('c07.cell_not_value_of_its_target', f'{label}: {text!r}: row {d[0]} is {show(d[1])}, the values of the targets {names} are {show(d[2])}', case)
+                return
     # parse back of expression-text names
     for t, name, parsed_t in zip(q.targets, names, stmt.targets):
         if t.alias is None and t.expr.kind != 'col':
@@ -135,7 +148,7 @@ def random_case(ctx, n):
     if rng.random() < 0.15:
         q.distinct = True
     for sname, style in styles(rng):
-        check_statement(ctx, conn, q, sname, style, f'random/{n}', hidden)
+        check_statement(ctx, conn, q, sname, style, f'random/{n}', hidden, mt)
     ctx.count('random.executed')
 
 
